@@ -12,7 +12,7 @@ use crate::probe::{CallInfo, Policy, Probe, StepRec};
 use crate::statejson::{self, ShapeSpec};
 
 pub const TITLE: &str = "No Monte-Carlo move is larger than the configured maximum step";
-pub const RULE: &str = "part scripted: synthetic states with 2..8 parameters whose ranges are log-uniform between 1e-3 and 1e3 wide, max_step_size 0 and 1e-7..1, 1..30 inner loops, any kT; the score script fixes the rejection pattern of every loop (0%, 25%, 75%, 100% or a generated bit pattern: accepted proposals get an ever increasing score, rejected ones no score), so the step-size adaptation sees every rejection history. part real: real hard and Lennard-Jones states of all groups with the package's own ranges. Oracle: for every proposal whose base state is identified from the trace: at most one coordinate differs and |proposal - base| <= max_step_size * (max - min)/2 * (1+1e-12) (clamping can only shorten a move; the distance is taken to the nearest of the candidate bases and of all values that coordinate has held earlier in the run, so a move is never over-reported and a restore to an older value — C06's subject — is not mistaken for a long move). Non-trivial = a judged step in loop >= 2 that follows a loop with fewer than 100% rejections; distinct by hash of the case.";
+pub const RULE: &str = "part scripted: synthetic states with 2..8 parameters whose ranges are log-uniform between 1e-3 and 1e3 wide, max_step_size 0 and 1e-7..1, 1..30 inner loops, any kT; the score script fixes the rejection pattern of every loop (0%, 25%, 75%, 100% or a generated bit pattern: accepted proposals get an ever increasing score, rejected ones no score), so the step-size adaptation sees every rejection history. part freeze-thaw: a one-parameter state; every proposal of the first m*inner (+0..2) inner loops is rejected (m in 1..12), every proposal of the following 2..4 loops is accepted; inner in {1..3000} (thorough: up to 20000, i.e. histories of up to 5e9 proposals); the largest move seen in the whole run is compared with the limit. part real: real hard and Lennard-Jones states of all groups with the package's own ranges. Oracle: for every proposal whose base state is identified from the trace: at most one coordinate differs and |proposal - base| <= max_step_size * (max - min)/2 * (1+1e-12) (clamping can only shorten a move; the distance is taken to the nearest of the candidate bases and of all values that coordinate has held earlier in the run, so a move is never over-reported and a restore to an older value — C06's subject — is not mistaken for a long move). Non-trivial = a judged step in loop >= 2 that follows a loop with fewer than 100% rejections; distinct by hash of the case.";
 
 pub fn assumptions() -> Vec<&'static str> {
     vec!["real-state ranges are the statement's: length [0.01, start], ratio [0.1, start], angle [pi/6, pi/2], x,y [-1/2,1/2], orientation [0, 2pi]; parameters are read in the order of generate_basis()"]
@@ -304,6 +304,159 @@ fn real_oracle(c: &RealCase, rec: &Rec, _: &Ctx) -> Result<(), String> {
     Ok(())
 }
 
+// ------------------------------------------------------------------------------------------------
+// freeze-thaw: very long histories.  A one-parameter state without any bookkeeping per call (so that 1e9 proposals
+// cost about a minute): every proposal of the first `freeze_loops` inner loops is rejected, every later one accepted.
+
+pub struct LeanStats {
+    calls: std::sync::atomic::AtomicU64,
+    freeze_calls: u64,
+    cur_bits: std::sync::atomic::AtomicU64,
+    max_move_bits: std::sync::atomic::AtomicU64,
+    max_move_call: std::sync::atomic::AtomicU64,
+}
+
+pub struct Lean {
+    val: packing::SharedValue,
+    bounds: (f64, f64),
+    stats: std::sync::Arc<LeanStats>,
+}
+
+impl Clone for Lean {
+    fn clone(&self) -> Lean {
+        Lean { val: packing::SharedValue::new(self.val.get_value()), bounds: self.bounds, stats: self.stats.clone() }
+    }
+}
+impl std::fmt::Debug for Lean {
+    fn fmt(&self, f: &mut std::fmt::Formatter) -> std::fmt::Result {
+        write!(f, "Lean({})", self.val.get_value())
+    }
+}
+impl PartialEq for Lean {
+    fn eq(&self, _: &Lean) -> bool {
+        true
+    }
+}
+impl Eq for Lean {}
+impl PartialOrd for Lean {
+    fn partial_cmp(&self, _: &Lean) -> Option<std::cmp::Ordering> {
+        Some(std::cmp::Ordering::Equal)
+    }
+}
+impl Ord for Lean {
+    fn cmp(&self, _: &Lean) -> std::cmp::Ordering {
+        std::cmp::Ordering::Equal
+    }
+}
+impl Serialize for Lean {
+    fn serialize<S: serde::Serializer>(&self, s: S) -> Result<S::Ok, S::Error> {
+        self.val.get_value().serialize(s)
+    }
+}
+impl packing::traits::ToSVG for Lean {
+    type Value = svg::Document;
+    fn as_svg(&self) -> svg::Document {
+        svg::Document::new()
+    }
+}
+impl State for Lean {
+    fn score(&self) -> Option<f64> {
+        use std::sync::atomic::Ordering::Relaxed;
+        let k = self.stats.calls.fetch_add(1, Relaxed);
+        let v = self.val.get_value();
+        if k == 0 {
+            self.stats.cur_bits.store(v.to_bits(), Relaxed);
+            return Some(0.);
+        }
+        let cur = f64::from_bits(self.stats.cur_bits.load(Relaxed));
+        let mv = (v - cur).abs();
+        if mv > f64::from_bits(self.stats.max_move_bits.load(Relaxed)) {
+            self.stats.max_move_bits.store(mv.to_bits(), Relaxed);
+            self.stats.max_move_call.store(k, Relaxed);
+        }
+        if k <= self.stats.freeze_calls {
+            None
+        } else {
+            self.stats.cur_bits.store(v.to_bits(), Relaxed);
+            Some(k as f64)
+        }
+    }
+    fn generate_basis(&self) -> Vec<packing::StandardBasis> {
+        vec![packing::StandardBasis::new(&self.val, self.bounds.0, self.bounds.1)]
+    }
+    fn total_shapes(&self) -> usize {
+        1
+    }
+    fn as_positions(&self) -> Result<String, anyhow::Error> {
+        Ok(format!("{}", self.val.get_value()))
+    }
+}
+
+#[derive(Clone, Debug, Serialize, Deserialize)]
+pub struct FreezeCase {
+    pub inner: u64,
+    /// the freeze lasts freeze_mult * inner (+ freeze_extra) inner loops
+    pub freeze_mult: u64,
+    pub freeze_extra: u64,
+    pub thaw_loops: u64,
+    pub max_step: f64,
+    pub kt: f64,
+    pub seed: u64,
+}
+
+fn freeze_strat(ctx: &Ctx) -> BoxedStrategy<FreezeCase> {
+    let inners: Vec<u64> = if ctx.tier == crate::engine::Tier::Quick { vec![1, 2, 3, 5, 10, 30, 100, 300, 1000, 3000] } else { vec![1, 3, 30, 300, 1000, 3000, 12_000, 20_000] };
+    (proptest::sample::select(inners), 1u64..=12, 0u64..3, 2u64..=4, prop_oneof![Just(1.0f64), 1e-3..1.0f64], prop_oneof![Just(0.0f64), 0.01..1.0f64], any::<u64>())
+        .prop_map(|(inner, freeze_mult, freeze_extra, thaw_loops, max_step, kt, seed)| FreezeCase { inner, freeze_mult, freeze_extra, thaw_loops, max_step, kt, seed })
+        .boxed()
+}
+
+fn freeze_oracle(c: &FreezeCase, rec: &Rec, _: &Ctx) -> Result<(), String> {
+    use std::sync::atomic::{AtomicU64, Ordering::Relaxed};
+    let freeze_loops = c.freeze_mult * c.inner + c.freeze_extra;
+    let loops = freeze_loops + c.thaw_loops;
+    let steps = loops * c.inner;
+    let bounds = (-1e12, 1e12);
+    let range = bounds.1 - bounds.0;
+    // a step of max_step * range / 2 = max_step * 1e12: 1e12 accepted moves cannot reach the bounds
+    let max_step = c.max_step * 1e-9;
+    let cfg = OptCfg { steps, inner: c.inner, kt_start: c.kt, kt_finish: None, kt_ratio: Some(0.), max_step, convergence: None, seed: c.seed };
+    let stats = std::sync::Arc::new(LeanStats { calls: AtomicU64::new(0), freeze_calls: freeze_loops * c.inner, cur_bits: AtomicU64::new(0), max_move_bits: AtomicU64::new(0), max_move_call: AtomicU64::new(0) });
+    let state = Lean { val: packing::SharedValue::new(0.), bounds, stats: stats.clone() };
+    let opt = cfg.build();
+    let res = std::panic::catch_unwind(std::panic::AssertUnwindSafe(|| opt.optimise_state(state)));
+    let calls = stats.calls.load(Relaxed);
+    rec.eval(calls);
+    if res.is_err() {
+        return Err(format!("optimiser panicked after {} evaluations", calls));
+    }
+    let limit = max_step * range / 2. * (1. + 1e-12);
+    let worst = f64::from_bits(stats.max_move_bits.load(Relaxed));
+    if worst > limit {
+        let k = stats.max_move_call.load(Relaxed);
+        return Err(format!(
+            "freeze-thaw history ({} inner loops of {} steps all rejected, then {} loops all accepted): proposal #{} (inner loop {}) moves the parameter by {:e}; max_step_size * range / 2 = {:e} ({:.3} times the configured maximum)",
+            freeze_loops,
+            c.inner,
+            c.thaw_loops,
+            k,
+            (k - 1) / c.inner + 1,
+            worst,
+            limit,
+            worst / limit
+        ));
+    }
+    let class = format!("freeze-thaw/inner{}{}", c.inner, if calls > 100_000_000 { "/over-1e8-proposals" } else { "" });
+    rec.class(&class);
+    if freeze_loops >= 9 * c.inner {
+        rec.nontrivial(hash_json(&serde_json::to_value(c).unwrap()));
+    }
+    if rec.wants_sample(&class) {
+        rec.sample(&class, || serde_json::json!({"case": c, "proposals": calls - 1, "largest_move_over_limit": worst / limit}));
+    }
+    Ok(())
+}
+
 pub fn parts() -> Vec<PartDef> {
-    vec![part("scripted", 12_000, 360_000, script_strat, script_oracle), part("real", 1_500, 45_000, real_strat, real_oracle)]
+    vec![part("scripted", 12_000, 360_000, script_strat, script_oracle), part("real", 1_500, 45_000, real_strat, real_oracle), crate::engine::part_opts("freeze-thaw", 400, 48, freeze_strat, freeze_oracle, |c: &FreezeCase, _: &dyn Fn(&FreezeCase) -> bool| c.clone(), crate::engine::PartOpts { max_shards: usize::MAX, max_shrink_iters: 8 })]
 }
